@@ -1566,7 +1566,7 @@ where
             Ordering::Equal => {}
             other => return Some(other),
         }
-        self.types.partial_cmp(&self.types)
+        self.types.partial_cmp(&other.types)
     }
 }
 
@@ -1583,7 +1583,7 @@ where
             Ordering::Equal => {}
             other => return other,
         }
-        self.types.cmp(&self.types)
+        self.types.canonical_cmp(&other.types)
     }
 }
 
@@ -1597,7 +1597,7 @@ where
             Ordering::Equal => {}
             other => return other,
         }
-        self.types.cmp(&self.types)
+        self.types.cmp(&other.types)
     }
 }
 
